@@ -22,8 +22,8 @@ CHECKS = {
  "C10": ("model_checking", "TLC model checking of Clone/CloneFrom on the store model + TLC trace validation",
          "2-world MCWorld instance: Clone and CloneFrom preserve StoreInv and represent the source's map; on real Worlds content, resources, token freshness (deep copy), equality, frame conditions on every other world after every later event, and lock-step twins.",
          "Bounded.", "6 C10"),
- "C11": ("exploration", "mutated encodings deserialized by the real code inside world histories; outcome and all later behaviour validated by TLC (TraceWorld)",
-         "Encodings of reachable worlds in three formats are mutated (every numeric field incl. declared lengths, identifier bytes, entity index/generation, free-list entries, values; token deletion/duplication/swap; field renames; element deletion/duplication) and fed to Deserialize. TLC requires an error, or a world that satisfies StoreInv, the identifier probes, the value ledger (no double drop) and the allocator protocol at once and under the random operations that follow on that world in the same history. The content of an accepted world is not compared with a specification-side decoding of the mutated input (no Serde.tla yet); leaks of a failed attempt are reported as INFO only.",
+ "C11": ("model_checking", "TLC model checking of spec/Serde.tla (acceptance checks sufficient for StoreInv over the mutation closure of reachable encodings) + mutated encodings deserialized by the real code, verdict and resulting store compared by TLC with Accepts / Decode",
+         "Encodings of reachable worlds in three formats are mutated (every numeric field incl. declared lengths, identifier bytes, entity index/generation, free-list entries, values; token deletion/duplication/swap; field renames; element deletion/duplication) and fed to Deserialize. TLC requires an error, or a world that satisfies StoreInv, the identifier probes, the value ledger (no double drop) and the allocator protocol at once and under the random operations that follow on that world in the same history. For structured mutations of the JSON encoding (vocabulary of Serde.tla: row index / generation, row delete / duplicate, declared length, identifier bits, table delete / duplicate, allocator length, free-list delete / duplicate / push / alter, 1-3 of them incl. the coordinated row-alias pair) TLC predicts the verdict (Accepts) and the resulting store (Decode) from the previous dump and compares both with what the code did; token-level and text-level single-site mutations are checked for validity of the outcome only. Leaks of a failed attempt are reported as INFO only.",
          "Mutations are single-site; declared lengths stay within the input size.", "6 C11"),
  "C13": ("model_checking", "TLC model checking of StoreInv + StoreInv evaluated by TLC on the real store dump after every event",
          "StoreInv (free list = inactive slots without duplicates, slot<->row bijection, lengths, one table per component set, lookup tables consistent) is an invariant of the bounded model and is evaluated on the hook's dump of every live world after every event of every trace.",
